@@ -125,6 +125,37 @@ func shardAccount(v sx.V) tlb.ShardAccount {
 	return s
 }
 
+// The account record as an application gets it: the serialised Account decoded by tlb.Unmarshal into a variable
+// that is REUSED across polls.  prior are the records of the earlier polls, in order.
+func accountCell(v sx.V) *boc.Cell {
+	a := shardAccount(v).Account
+	if a.SumType == "Account" {
+		a.Account.Addr.SumType = "AddrStd"
+		a.Account.StorageStat.StorageExtra.SumType = "StorageExtraNone"
+	}
+	c := boc.NewCell()
+	if err := tlb.Marshal(c, a); err != nil {
+		panic(err)
+	}
+	return c
+}
+
+func polledAccount(prior []sx.V, cur sx.V) tlb.ShardAccount {
+	var polled tlb.ShardAccount
+	for _, v := range append(append([]sx.V{}, prior...), cur) {
+		if err := tlb.Unmarshal(accountCell(v), &polled.Account); err != nil {
+			panic(err)
+		}
+	}
+	return polled
+}
+
+// an earlier poll that found the wallet active with seqno 7 (data of the version's own layout)
+func staleActive(ver wallet.Version) sx.V {
+	r := prng.New(uint64(ver) + 77)
+	return sx.L(sx.A("active"), cellToSx(c15WellFormed(r, ver, 7, 0).cell))
+}
+
 func c15Wallet(l []sx.V, chain *fakeChain) (wallet.Wallet, error) {
 	ver := wallet.Version(l[0].I())
 	seed := l[len(l)-1].Bytes
@@ -214,7 +245,9 @@ func execC15Next(in sx.V) sx.V {
 	if err != nil {
 		return sx.A("err")
 	}
-	p, err := wallet.VerifNextMessageParams(&w, shardAccount(l[3]))
+	// the state comes out of a variable that earlier polls (active with seqno 7, then frozen) were decoded into
+	ver0 := wallet.Version(l[0].I())
+	p, err := wallet.VerifNextMessageParams(&w, polledAccount([]sx.V{staleActive(ver0), sx.A("frozen"), staleActive(ver0)}, l[3]))
 	if err != nil {
 		return sx.A("err")
 	}
@@ -258,7 +291,7 @@ func execC15Send(in sx.V) sx.V {
 	if l[3].IsA("staterr") {
 		chain.stateErr = true
 	} else {
-		chain.state = shardAccount(l[3])
+		chain.state = polledAccount([]sx.V{sx.A("uninit"), staleActive(wallet.Version(l[0].I()))}, l[3])
 	}
 	for _, p := range l[7].List {
 		if len(p.List) == 1 {
@@ -358,6 +391,7 @@ func historyRun(ver wallet.Version, seed []byte, o wopts, ops []sx.V, fresh bool
 	}
 	defer func() { _ = orig }()
 	var last *tlb.StateInit
+	var polled tlb.ShardAccount // the application's variable for the polled account record
 	var answers []sx.V
 	for _, op := range ops {
 		if fresh { // reference run: a new wallet (and nothing to mutate) for every call
@@ -418,8 +452,18 @@ func historyRun(ver wallet.Version, seed []byte, o wopts, ops []sx.V, fresh bool
 					}
 				}
 				return sx.A("ok")
-			default: // ('next acct)
-				p, err := wallet.VerifNextMessageParams(&w, shardAccount(op.List[1]))
+			default: // ('next acct): a fresh literal; ('poll acct): the record decoded into the reused variable
+				st := shardAccount(op.List[1])
+				if op.Head() == "poll" {
+					if fresh {
+						polled = tlb.ShardAccount{}
+					}
+					if err := tlb.Unmarshal(accountCell(op.List[1]), &polled.Account); err != nil {
+						return sx.A("harness-error")
+					}
+					st = polled
+				}
+				p, err := wallet.VerifNextMessageParams(&w, st)
 				if err != nil {
 					return sx.A("err")
 				}
@@ -875,7 +919,7 @@ func genC15(c *Ctx) {
 	// (returned *StateInit, the Init of NextMsgParams, its copy of the address); every answer must be the answer of a
 	// fresh wallet
 	for _, ver := range c15AddrVersions {
-		for rep := 0; rep < c.Scale(2, 12); rep++ {
+		for rep := 0; rep < c.Scale(3, 12); rep++ {
 			seed := c14Seed(r)
 			pk := ed25519.NewKeyFromSeed(seed).Public().(ed25519.PublicKey)
 			o := randOpts(r)
@@ -897,13 +941,21 @@ func genC15(c *Ctx) {
 					ops = append(ops, sx.L(sx.A("rekey"), sx.Nat(0), sx.L(), sx.Bytes(nk)))
 				default:
 					st, _ := acctSx(r, ver, r.Intn(4))
-					ops = append(ops, sx.L(sx.A("next"), st))
+					ops = append(ops, sx.L(sx.A([]string{"next", "poll", "poll"}[r.Intn(3)]), st))
 				}
 			}
 			if rep == 0 { // the plain scenario: get, overwrite, get again, send to a non-existent account
 				ops = []sx.V{sx.A("stateinit"), sx.L(sx.A("mutate"), sx.Nat(0), cellToSx(randTinyCell(r, 1))), sx.A("stateinit"),
 					sx.L(sx.A("next"), sx.A("none")), sx.L(sx.A("mutate"), sx.Nat(4), cellToSx(randTinyCell(r, 0))), sx.L(sx.A("next"), sx.A("uninit")),
 					sx.A("address"), sx.A("stateinit")}
+			}
+			if rep == 2 && int(ver) >= int(wallet.V3R1) {
+				// polls into one variable: active, deleted, active again, uninitialised, frozen, deleted
+				act := func(seq uint64) sx.V {
+					return sx.L(sx.A("active"), cellToSx(c15WellFormed(r, ver, seq, r.Intn(2)).cell))
+				}
+				ops = []sx.V{sx.L(sx.A("poll"), act(7)), sx.L(sx.A("poll"), sx.A("none")), sx.L(sx.A("poll"), act(9)), sx.L(sx.A("poll"), sx.A("uninit")),
+					sx.L(sx.A("poll"), sx.A("frozen")), sx.L(sx.A("poll"), sx.A("none")), sx.L(sx.A("poll"), act(1<<32-1)), sx.L(sx.A("poll"), sx.A("none"))}
 			}
 			if rep == 1 { // a key buffer reused for the next wallet: the first wallet must keep its identity
 				ops = []sx.V{sx.A("stateinit"), sx.L(sx.A("rekey"), sx.Nat(0), sx.L(), sx.Bytes(ed25519.NewKeyFromSeed(r.Bytes(32)))), sx.A("stateinit"),
